@@ -17,7 +17,7 @@ LEVEL = dict(
 )
 
 
-def run(ctx):
+def _run(ctx):
     F = ctx.facts("default")
     lexrules.check_names(ctx, F)
     lexrules.check_strings(ctx, F, cr_required=False)
@@ -95,3 +95,10 @@ def run(ctx):
            what="the content parser gives %s special syntax (inline image: dictionary entries, ID, raw data, EI) but Content::encode never mentions %s: a decoded inline image is re-encoded as an ordinary operation that does not decode"
                 % (sorted(x.decode() for x in special), [x.decode() for x in missing]))
     ctx.extra["exhaustive_over"] = "256 byte values for every byte-class obligation"
+
+
+def run(ctx):
+    _run(ctx)
+    import prop_c01
+    # literal strings (operands / titles) are written by Writer::write_string: its escape decision must not depend on list order
+    prop_c01.membership_rule(ctx, ctx.facts("default"))
